@@ -300,4 +300,15 @@ def parseRegMessage (m : ZmqMsg) (enableV4 enableV6 build4Ok build6Ok : Bool) : 
       if r6 = some false then .ok none
       else .ok (some ((if r4 = some true then 1 else 0) + (if r6 = some true then 1 else 0)))
 
+/-! ## extracted facts (tie 1) -/
+
+/-- one field access through a protobuf sub-message pointer (`x.RegistrationPayload.Field`) in an
+entry-point file, with the verdict of the extractor's syntactic guard analysis -/
+structure DerefSite where
+  file : String
+  line : Nat
+  expr : String
+  guarded : Bool
+deriving Repr, DecidableEq
+
 end CJ.Ingress
